@@ -94,7 +94,18 @@ class Helper:
             if flat is not None:
                 self.flat_body = flat
                 return "proc"
-        # several returns: expandable only where the call itself is returned (`return h(..)`)
+        # several value returns, each closing an arm of a conditional: the value goes through a result variable
+        # (used where the call is NOT itself returned: `x = h(..)`, `x |= h(..)`, `h(..)`; `return h(..)` keeps the returns, below)
+        rv = f"_{fn.name}__ret"
+        flat = _unguard(copy.deepcopy(body), rv)
+        if flat is not None:
+            init = ast.Assign(targets=[ast.Name(id=rv, ctx=ast.Store())], value=ast.Constant(value=None))
+            ret = ast.Return(value=ast.Name(id=rv, ctx=ast.Load()))
+            for x_ in (init, ret):
+                ast.copy_location(x_, body[0])
+                ast.fix_missing_locations(x_)
+            self.flat_body = [init] + flat + [ret]
+        # several returns: where the call itself is returned (`return h(..)`) the body is expanded with its returns
         return "tail"
 
     def body(self) -> List[ast.stmt]:
@@ -105,26 +116,32 @@ def _has_return(stmts) -> bool:
     return any(isinstance(n, ast.Return) for st in stmts for n in ast.walk(st) if not isinstance(n, FuncDef + (ast.Lambda,)))
 
 
-def _unguard(stmts: List[ast.stmt]) -> Optional[List[ast.stmt]]:
+def _unguard(stmts: List[ast.stmt], retvar: Optional[str] = None) -> Optional[List[ast.stmt]]:
     """Statements of a procedure whose only returns are bare and close an `if` arm -> the same statements without returns
     (`if C: A; return` + REST  ==  `if C: A` / `else: REST`). None when a return sits anywhere else (loop, try, with)."""
     out: List[ast.stmt] = []
     for i, st in enumerate(stmts):
         if isinstance(st, ast.Return):
+            if retvar is not None:
+                asg = ast.copy_location(ast.Assign(targets=[ast.Name(id=retvar, ctx=ast.Store())], value=st.value or ast.Constant(value=None)), st)
+                ast.fix_missing_locations(asg)
+                return out + [asg]
             return out or [ast.copy_location(ast.Pass(), st)]
         if isinstance(st, ast.If) and _has_return([st]):
             body_ret = bool(st.body) and isinstance(st.body[-1], ast.Return)
             else_ret = bool(st.orelse) and isinstance(st.orelse[-1], ast.Return)
             a = st.body[:-1] if body_ret else st.body
             b = st.orelse[:-1] if else_ret else st.orelse
-            a2, b2 = _unguard(a), _unguard(b)
-            rest = _unguard(stmts[i + 1:])
+            tail_a = _unguard([st.body[-1]], retvar) if (body_ret and retvar is not None) else []
+            tail_b = _unguard([st.orelse[-1]], retvar) if (else_ret and retvar is not None) else []
+            a2, b2 = _unguard(a, retvar), _unguard(b, retvar)
+            rest = _unguard(stmts[i + 1:], retvar)
             if a2 is None or b2 is None or rest is None:
                 return None
             if (_has_return(a) and not body_ret) or (_has_return(b) and not else_ret):
                 return None  # a nested return that does not close the arm: the rest would have to be skipped from inside
-            new_body = a2 + ([] if body_ret else rest)
-            new_else = b2 + ([] if else_ret else rest)
+            new_body = a2 + (tail_a if body_ret else rest)
+            new_else = b2 + (tail_b if else_ret else rest)
             if body_ret and else_ret:
                 pass  # REST is dead
             elif not body_ret and not else_ret:
@@ -254,12 +271,32 @@ def _expand_proc(h: Helper, call: ast.Call, recv, st: ast.stmt) -> Optional[List
         if rv is None:
             rv = ast.Constant(value=None)
         trivial = isinstance(rv, ast.Name) and len(st.targets) == 1 and isinstance(st.targets[0], ast.Name) and st.targets[0].id == rv.id
-        if not trivial:
+        sunk = None
+        if not trivial and isinstance(rv, ast.Name) and getattr(h, "flat_body", None) is not None and len(st.targets) == 1 \
+                and isinstance(st.targets[0], (ast.Name, ast.Attribute)):
+            sunk = _sink_result(out, rv.id, lambda e: ast.Assign(targets=[copy.deepcopy(st.targets[0])], value=e))
+        if sunk is not None:
+            out = sunk
+        elif not trivial:
             out.append(ast.Assign(targets=st.targets, value=rv))
     elif isinstance(st, ast.AnnAssign):
         out.append(ast.AnnAssign(target=st.target, annotation=st.annotation, value=rv or ast.Constant(value=None), simple=st.simple))
     elif isinstance(st, ast.Return):
         out.append(ast.Return(value=rv))
+    elif isinstance(st, ast.AugAssign):
+        sunk = None
+        if isinstance(rv, ast.Name) and getattr(h, "flat_body", None) is not None:
+            def use(e: ast.AST) -> ast.stmt:
+                empty = (isinstance(e, ast.Call) and isinstance(e.func, ast.Name) and e.func.id in ("set", "frozenset", "list", "dict", "tuple") and not e.args
+                         and not e.keywords) or (isinstance(e, (ast.List, ast.Tuple, ast.Set, ast.Dict)) and not getattr(e, "elts", getattr(e, "keys", [])))
+                if empty and isinstance(st.op, (ast.BitOr, ast.Add)):
+                    return ast.Pass()  # `T |= set()` changes nothing
+                return ast.AugAssign(target=copy.deepcopy(st.target), op=st.op, value=e)
+            sunk = _sink_result(out, rv.id, use)
+        if sunk is not None:
+            out = sunk
+        else:
+            out.append(ast.AugAssign(target=st.target, op=st.op, value=rv or ast.Constant(value=None)))
     elif isinstance(st, ast.Expr):
         if rv is not None and not isinstance(rv, (ast.Name, ast.Constant, ast.Attribute)):
             out.append(ast.Expr(value=rv))
@@ -267,6 +304,41 @@ def _expand_proc(h: Helper, call: ast.Call, recv, st: ast.stmt) -> Optional[List
         out = [ast.Pass()]
     _place(out, st)
     return out
+
+
+def _sink_result(stmts: List[ast.stmt], var: str, use) -> Optional[List[ast.stmt]]:
+    """`var = None; if C: ..; var = A  else: ..; var = B` followed by one use of var: the use is moved to where the value is known
+    (`use(A)` / `use(B)`), so that what reaches the use is visible at the use. None when some path does not end by assigning var."""
+    body = list(stmts)
+    if body and isinstance(body[0], ast.Assign) and isinstance(body[0].targets[0], ast.Name) and body[0].targets[0].id == var \
+            and isinstance(body[0].value, ast.Constant) and body[0].value.value is None:
+        body = body[1:]
+
+    def go(block: List[ast.stmt]) -> Optional[List[ast.stmt]]:
+        if not block:
+            return None
+        last = block[-1]
+        head = block[:-1]
+        if any(isinstance(x, ast.Name) and x.id == var for st_ in head for x in ast.walk(st_)):
+            return None
+        if isinstance(last, ast.Assign) and len(last.targets) == 1 and isinstance(last.targets[0], ast.Name) and last.targets[0].id == var:
+            if any(isinstance(x, ast.Name) and x.id == var for x in ast.walk(last.value)):
+                return None
+            return head + [ast.copy_location(use(last.value), last)]
+        if isinstance(last, ast.If) and last.orelse:
+            if any(isinstance(x, ast.Name) and x.id == var for x in ast.walk(last.test)):
+                return None
+            a, b = go(last.body), go(last.orelse)
+            if a is None or b is None:
+                return None
+            return head + [ast.copy_location(ast.If(test=last.test, body=a, orelse=b), last)]
+        return None
+
+    res = go(body)
+    if res is not None:
+        for x in res:
+            ast.fix_missing_locations(x)
+    return res
 
 
 def _expand_tail(h: Helper, call: ast.Call, recv, st: ast.stmt) -> Optional[List[ast.stmt]]:
@@ -425,7 +497,7 @@ def inline_new_helpers(trees: Dict[str, ast.Module], known: Set[str]) -> List[st
             out: List[ast.stmt] = []
             for st in stmts:
                 rep = None
-                if isinstance(st, (ast.Expr, ast.Assign, ast.AnnAssign, ast.Return)) and getattr(st, "value", None) is not None:
+                if isinstance(st, (ast.Expr, ast.Assign, ast.AnnAssign, ast.Return, ast.AugAssign)) and getattr(st, "value", None) is not None:
                     v, aw = strip(st.value)
                     if isinstance(v, ast.Call):
                         h, recv = target_of(v)
@@ -434,6 +506,9 @@ def inline_new_helpers(trees: Dict[str, ast.Module], known: Set[str]) -> List[st
                         elif h is not None and h.fn is not within and h.kind == "tail" and isinstance(st, ast.Return) \
                                 and (aw == isinstance(h.fn, ast.AsyncFunctionDef)):
                             rep = _expand_tail(h, v, recv, st)
+                        elif h is not None and h.fn is not within and h.kind == "tail" and getattr(h, "flat_body", None) is not None \
+                                and (aw == isinstance(h.fn, ast.AsyncFunctionDef)):
+                            rep = _expand_proc(h, v, recv, st)
                 elif isinstance(st, ast.For) and isinstance(st.iter, ast.Call):
                     h, recv = target_of(st.iter)
                     if h is not None and h.fn is not within and h.kind == "gen":
